@@ -1,0 +1,40 @@
+//go:build verif
+
+// Export shims for the verification harness under /verif (build tag "verif" only).
+package inject
+
+import (
+	corev1 "k8s.io/api/core/v1"
+	metav1 "k8s.io/apimachinery/pkg/apis/meta/v1"
+	"k8s.io/apimachinery/pkg/types"
+
+	meshconfig "istio.io/api/mesh/v1alpha1"
+)
+
+// VerifInjectRequired exposes injectRequired.
+func VerifInjectRequired(ignored []string, config *Config, podSpec *corev1.PodSpec, metadata metav1.ObjectMeta) bool {
+	return injectRequired(ignored, config, podSpec, metadata)
+}
+
+// VerifInjectPod runs injectPod on pod with the given settings and returns the JSON patch.
+func VerifInjectPod(pod *corev1.Pod, ns *corev1.Namespace, cfg *Config, values ValuesConfig,
+	mesh *meshconfig.MeshConfig, nativeSidecar bool,
+) ([]byte, error) {
+	params := InjectionParameters{
+		pod:                 pod,
+		deployMeta:          types.NamespacedName{Name: pod.Name, Namespace: pod.Namespace},
+		namespace:           ns,
+		nativeSidecar:       nativeSidecar,
+		typeMeta:            metav1.TypeMeta{Kind: "Pod", APIVersion: "v1"},
+		templates:           cfg.Templates,
+		defaultTemplate:     cfg.DefaultTemplates,
+		aliases:             cfg.Aliases,
+		meshConfig:          mesh,
+		proxyConfig:         mesh.GetDefaultConfig(),
+		valuesConfig:        values,
+		revision:            "default",
+		proxyEnvs:           map[string]string{},
+		injectedAnnotations: cfg.InjectedAnnotations,
+	}
+	return injectPod(params)
+}
